@@ -341,6 +341,12 @@ class Ctx:
     # ------------------------------------------------------------------ finish
     def finish(self, level='model_checking', functions=None, explanation=None):
         wall = round(time.time() - self.t0, 2)
+        try:
+            from . import world as _world
+            if _world.DEFAULTED_FIELDS:
+                self.extra['struct_fields_unknown_to_the_harness_set_to_zero_values'] = sorted(f"{a}.{b}: {c}" for (a, b, c) in _world.DEFAULTED_FIELDS)
+        except Exception:
+            pass
         stats = {'paths': 0, 'blocks': 0, 'solver_calls': 0, 'solver_time': 0.0, 'forks': 0, 'calls_inlined': 0}
         funcs, summ = {}, {}
         for ex in self.executors:
